@@ -179,6 +179,7 @@ func main() {
 		next := n
 		if a.N == 0 {
 			next = genFrames(r, w, next, a.Tier)
+			next = genCfgFrames(r, w, next, a.Tier)
 			next = genProto(r, w, next, a.Tier)
 			next = genPayload(r, w, next, a.Tier)
 			next = genBig(r, w, next, a.Tier)
@@ -196,12 +197,11 @@ func main() {
 				e := parseEntry(f[2:])
 				var b []byte
 				var size, upper int
+				var dirtyDiff string
 				p := vh.Catch(func() {
 					size = e.Size()
 					upper = e.SizeUpperLimit()
-					b = make([]byte, upper+16)
-					n, _ := e.MarshalTo(b)
-					b = b[:n]
+					b, dirtyDiff = marshalDirty(e.MarshalTo, upper+16, func(x []byte) []byte { return x })
 				})
 				if p != "" {
 					obs.Printf("%s PANIC\n", id)
@@ -213,6 +213,9 @@ func main() {
 				// property monitor, on the implementation alone
 				want := fmt.Sprintf("ok %d %d %d %d %d %d %d %s %d", e.Term, e.Index, int32(e.Type), e.Key,
 					e.ClientID, e.SeriesID, e.RespondedTo, vh.Hex(e.Cmd), len(b))
+				if dirtyDiff != "" {
+					st.Violation(id, "entry: the encoding depends on stale buffer content: "+dirtyDiff)
+				}
 				if dec != want {
 					st.Violation(id, "roundtrip: decode(encode e) = "+dec+" want "+want)
 				}
@@ -239,6 +242,8 @@ func main() {
 				runPayload(id, f[1:], line, obs, st)
 			case "PB", "PBDEC", "UPD", "UPDDEC":
 				runProto(id, f[1:], line, obs, st)
+			case "CFGFRAME":
+				runCfgFrame(id, f[1:], line, obs, st)
 			case "HDR", "HDRDEC", "WRITE", "FRAME":
 				runFrame(id, f[1:], line, obs, st)
 			case "DECODE":
